@@ -681,7 +681,10 @@ func (s *vfSim) runUpdateTxn(r *rand.Rand, worker, seq int) {
 			s.do(t, op, func() { ut.Update(nil, table, rec.Off, vfRec(newr)) })
 			if op.Err == "" && !old.eq(newr) {
 				t.Wrote = true
-				if how != 2 && r.IntN(12) == 0 && !ut.ct.Failed() {
+				// (only for a row that existed before this transaction: for a row the transaction itself inserted
+				// the old offset still finds the row's own add entry and the delete simply removes the row)
+				ownRow := strings.Contains(string(old[len(old)-1]), fmt.Sprintf("h%d.%s.", s.hist, t.id()))
+				if how != 2 && !ownRow && r.IntN(12) == 0 && !ut.ct.Failed() {
 					// misuse that must be refused cleanly: delete through the record's PRE-update offset. The
 					// operation fails ("update & delete on same record") and the transaction must be dead; if
 					// it stayed alive (do() reports that) its half-applied delete could be committed
@@ -695,7 +698,9 @@ func (s *vfSim) runUpdateTxn(r *rand.Rand, worker, seq int) {
 						s.violate("C01 C02 C03 C06 C07 C08 C16 C44", "stale-offset-delete-accepted", fmt.Sprintf("%s op %d", t.id(), len(t.Ops)-1),
 							map[string]any{"op": sop.String(), "txn": t.dump()})
 					}
-					break
+					if sop.Err != vfFkBlock {
+						i = nops // the transaction is dead (the abort is delivered asynchronously): no further operations
+					}
 				}
 			}
 		default: // delete a row that was just read
